@@ -1,6 +1,6 @@
 (* Properties_C18.v -- C18: composite preconditioners realise their block formulas.
    Statements only; proofs: CompositeProofs.v.  Inner solvers are abstract functions. *)
-From Amgcl Require Import Scalar QcInst Vec Crs Kernels KernelsProofs MatOps Adapters Composite CompositeProofs.
+From Amgcl Require Import Scalar QcInst Vec Crs Kernels KernelsProofs MatOps Adapters Composite CompositeProofs CompositeProofs2.
 Local Open Scope S_scope.
 
 Section Ring.
@@ -67,6 +67,13 @@ Theorem C18_pattern_terminates fuel n stride start (mask : list bool) :
   0 < stride -> n - start < fuel -> exists m, pattern_loop fuel n stride start mask = Some m.
 Proof. exact (pattern_terminates fuel n stride start mask). Qed.
 Print Assumptions C18_pattern_terminates.
+
+(* A1 (partial): the gather (x2u, x2p) and scatter (u2x, p2x) operators of every mask are
+   inverse to each other (any Scalar); the full reassembly identity is in the comment below *)
+Theorem C18_scatter_gather_partial (S : Scalar) (mask : list bool) (x : vec S) : length x = length mask ->
+  scatter_up mask (gather mask false x) (gather mask true x) = x.
+Proof. exact (scatter_gather mask x). Qed.
+Print Assumptions C18_scatter_gather_partial.
 
 (* closed at the exact rationals *)
 Theorem C18_block_products_are_linear_Qc (A : crs QcS) (a b : vec QcS) :
